@@ -1,5 +1,6 @@
 import Driver.Proto
 import MesonModel.ArgList.Spec
+import MesonModel.ArgList.Assemble
 import MesonModel.Generated.ArgTables
 /-
 Driver commands of area `arglist`.
@@ -11,6 +12,9 @@ Driver commands of area `arglist`.
   spec  <cls>|<list>|<batch>                   `specAdd`
   tables <cls>                                 the generated tables, for the round-trip self test
   tablesok <cls>                               `tablesOk` and `tablesWitness`
+  native <cls>|<gnu>|<default dirs>|<list>     `nativeList` on a given (flushed) list
+  assemble <cls>|<30 fields>                   the backend's assembly of one compile line from abstract groups:
+                                              base list # target list # compile line # lazy = eager meaning
 
 Lists: items `,`-joined, each item `s` followed by the code points (so `s` is the empty string and the
 empty field the empty list).  Script: ops `;`-joined, tokens of an op `:`-joined.
@@ -108,6 +112,50 @@ def showTables (T : Tables) : String :=
   "/".intercalate ([T.prependPrefixes, T.dedup2Prefixes, T.dedup2Suffixes, T.dedup2Args,
     T.dedup1Prefixes, T.dedup1Suffixes, T.dedup1Args, T.alwaysDedupArgs].map encList)
 
+
+/-! ### `assemble`: decoding of `Sources` -/
+
+def splitNE (s : String) (sep : String) : List String := (s.splitOn sep).filter (fun w => !w.isEmpty)
+
+def decKind (f : String) : TargetKind :=
+  match f.splitOn ":" with
+  | ["shared"] => .sharedLib
+  | ["static", a, b] => .staticLib (a == "1") (b == "1")
+  | ["exe", a] => .executable (a == "1")
+  | _ => .other
+
+/-- `found:compile:exe` -/
+def decDep (f : String) : Dep :=
+  match f.splitOn ":" with
+  | [a, b, c] => ⟨a == "1", decList b, decList c⟩
+  | _ => ⟨false, [], []⟩
+
+/-- `sargs+bargs:sargs+bargs/extra:extra` -/
+def decInc (f : String) : IncDir :=
+  let halves := f.splitOn "/"
+  let ds := halves.getD 0 ""
+  let ex := halves.getD 1 ""
+  { dirs := (ds.splitOn ":").filterMap (fun p =>
+      match p.splitOn "+" with
+      | [a, b] => some (decList a, decList b)
+      | _ => none),
+    extra := (ex.splitOn ":").filterMap (fun p => if p == "-" then some [] else if p.isEmpty then none else some (decList p)) }
+
+def decSources (fs : List String) : Option Sources :=
+  match fs with
+  | [vis, bo, ns, al, wa, we, wea, oc, os, op, db, pr, gl, ex, kd, pic, pie, deps, fo, foi, sd, imp, ctd, incs, xt, isd, df,
+      sdi, bdi, pdi] =>
+    some { visibility := decList vis, baseOpts := decList bo, noStdlib := decList ns, always := decList al, warn := decList wa,
+           werror := we == "1", werrorArgs := decList wea, optionCompile := decList oc, optionStd := decList os,
+           optimization := decList op, debug := decList db, project := decList pr, globalArgs := decList gl, ext := decList ex,
+           kind := decKind kd, picArgs := decList pic, pieArgs := decList pie,
+           deps := (splitNE deps ";").map decDep, fortran := fo == "1",
+           fortranIncs := (splitNE foi ";").map (fun p => if p == "-" then [] else decList p),
+           showDep := decList sd, implicitIncs := imp == "1", customTargetDirs := decList ctd,
+           incDirs := (splitNE incs ";").map decInc, extra := decList xt, isD := isd == "1", dFeatures := decList df,
+           srcDirInc := decList sdi, buildDirInc := decList bdi, privateDirInc := decList pdi }
+  | _ => none
+
 def handle (cmd : String) (fs : List String) : String :=
   match cmd, fs with
   | "run", [cls, gnu, dirs, script] =>
@@ -138,6 +186,18 @@ def handle (cmd : String) (fs : List String) : String :=
     | none => "bad-class"
     | some T => boolStr (tablesOk T) ++ "|" ++
       (match tablesWitness T with | none => "none" | some w => encItem w)
+  | "native", [cls, gnu, dirs, l] =>
+    match cfgOf cls (gnu == "1") (decList dirs) with
+    | none => "bad-class"
+    | some cfg => encList (nativeList cfg.native (decList l))
+  | "assemble", cls :: rest =>
+    match tablesOf cls, decSources rest with
+    | some T, some src =>
+      let K := T.classify
+      encList (baseArgsLazy K src) ++ "#" ++ encList (targetArgsLazy K src) ++ "#" ++ encList (compileLine K src) ++ "#" ++
+        boolStr (decide (compileLine K src = compileSpec K src))
+    | none, _ => "bad-class"
+    | _, none => "bad-sources"
   | _, _ => "bad-op"
 
 end Driver.ArgList
